@@ -261,7 +261,7 @@ def gen_mixed(rng):
     return {"kind": "par", "env": env, "arrays": arrays, "closures": cls, "ops": ops, "scheds": [[]]}
 
 
-def gen_par(rng, reps):
+def gen_par(rng, reps, alloc=False):
     """n goroutines call one closure at once.  The baked-in list has a length from BAKED_COUNTS (Go's
     allocator rounds the capacity of a copied slice up to a size class, so 17, 19, 21, 33 strings get
     spare room where 16 get none), some baked-in arguments are slow to expand (many references to an
@@ -270,6 +270,10 @@ def gen_par(rng, reps):
     nb = rng.choice(BAKED_COUNTS)
     spare = rng.choice([0, 0, 1, 2])
     slow_n = rng.choice([0, 200, 400, 400])
+    if alloc:
+        # always present: a closure over a baked-in list whose COPY gets spare capacity from the allocator's size classes,
+        # called by several goroutines with one distinct argument each, expansion slow enough for the calls to overlap in Exec
+        nb, slow_n = rng.choice([17, 19, 21, 33]), 400
     cells = []
     for i in range(nb + spare):
         w = rng.choice(WORDS)
@@ -281,16 +285,20 @@ def gen_par(rng, reps):
     # IDENTICAL call-time arguments are the main shape (the same question asked by several goroutines at once: every
     # call must start its own child); "staggered": identical calls started one after the other while the earlier
     # children are still running, with a Setenv of a referenced variable in between; "distinct": told apart by argument
-    shape = rng.choice(["identical"] * 5 + ["distinct"] * 5 + ["staggered"] * 3 + ["mixed"] * 5)
+    shape = rng.choice(["identical"] * 5 + ["distinct"] * 4 + ["staggered"] * 3 + ["mixed"] * 5)
+    if alloc:
+        shape = "distinct"
     if shape == "mixed":
         return gen_mixed(rng)
     n = rng.choice([2, 2, 3, 4, 6]) if shape != "staggered" else rng.choice([2, 2, 3])
+    if alloc:
+        n = rng.choice([3, 4, 6])
     extras = []
     stagger = None
     if shape == "distinct":
         for g in range(n):
             arrays.append(["G%d-%s" % (g, rng.choice(WORDS)), rng.choice(WORDS)])
-            extras.append({"nil": False, "id": len(arrays) - 1, "off": 0, "len": rng.choice([1, 1, 2]), "cap": 2})
+            extras.append({"nil": False, "id": len(arrays) - 1, "off": 0, "len": 1 if alloc else rng.choice([1, 1, 2]), "cap": 2})
     else:
         var = rng.choice(VARS)
         same = ["same-" + rng.choice(WORDS), rng.choice(["$%s" % var, "${%s}x" % var, "pre$%s" % var]) if shape == "staggered" else rng.choice(WORDS)]
@@ -309,7 +317,7 @@ def gen_par(rng, reps):
     par = {"op": "par", "c": 0, "extras": extras, "reps": reps, "bound_ms": PAR_BOUND_MS, "shape": shape}
     if stagger:
         par["stagger"] = stagger
-    if rng.random() < 0.25:
+    if rng.random() < 0.25 and not alloc:
         # the reference behaviour: the same calls made directly, sh.Output/sh.Run(cmd, baked+extra...)
         par.update(parfn="Output" if shape == "staggered" else rng.choice(["Output", "Run"]), cmd=cls[0]["cmd"])
         done = set()
@@ -857,9 +865,10 @@ def run(ctx):
         cases = [dict(ctx.replay["case"])]
     else:
         nh = 260 if ctx.quick else 6000
-        npar = 32 if ctx.quick else 300
+        npar = 28 if ctx.quick else 300
         reps = 4 if ctx.quick else 10
-        cases = [gen_history(rng) for _ in range(nh)] + [gen_par(rng, reps) for _ in range(npar)]
+        nalloc = 6 if ctx.quick else 60
+        cases = [gen_history(rng) for _ in range(nh)] + [gen_par(rng, reps) for _ in range(npar)] + [gen_par(rng, reps, alloc=True) for _ in range(nalloc)]
     ctx.log("built; running %d cases" % len(cases))
     cases, answers, _ = run_chunks(ctx, binp, child, cases, "n")
     ctx.log("implementation ran")
